@@ -111,4 +111,6 @@ def run(ctx):
     rep.floor('R02.4', 'error mappings', n_maps, 3 * ns)
     from rules import profile
     profile.check(ctx, rep, 'R02.P', ['creg_start', 'clog_start', 'creg_finish', 'clog_finish'])
+    from rules import lclone
+    lclone.check(ctx, rep, 'R02.C')
     return rep
